@@ -42,7 +42,11 @@ NoChunk == [descr |-> NoDescr, rows |-> <<>>]
 
 \* `err` is the outcome the specification chose (the harness ignores it: it records the real one)
 Ev(o, h, p, m, dl, c, hd) == [op |-> o, h |-> h, p |-> p, mode |-> m, delim |-> dl, chunk |-> c, hdr |-> hd, err |-> "none"]
-Log(e) == hist' = IF KeepHist THEN Append(hist, [e EXCEPT !.err = res'.err]) ELSE hist
+\* export runs (KeepHist) do not generate what will not be printed: the step is disabled at MaxDepth.
+\* (The guard lives here and not in Next so that Next stays a plain disjunction of named actions,
+\* which is what TLC's per-action coverage - the vacuity guard - needs.)
+Log(e) == /\ KeepHist => Len(hist) < MaxDepth
+          /\ hist' = IF KeepHist THEN Append(hist, [e EXCEPT !.err = res'.err]) ELSE hist
 
 Init == RSInit /\ hist = <<>>
 
@@ -68,10 +72,9 @@ MAppendMissing == "appendmissing" \in Acts /\ \E p \in Paths, id \in ChunkIds, h
 MReadBack == "read" \in Acts /\ \E p \in Paths : ReadBack(p) /\ Log(Ev("read", 0, p, "none", "none", NoChunk, "none"))
 MReadHeader == "readhdr" \in Acts /\ \E p \in Paths : ReadHeader(p) /\ Log(Ev("readhdr", 0, p, "none", "none", NoChunk, "none"))
 
-Next == /\ KeepHist => Len(hist) < MaxDepth          \* export runs: do not generate what will not be printed
-        /\ \/ MOpen \/ MHWrite \/ MHRead \/ MHClose
-           \/ MCreate \/ MOverwrite \/ MAppendCompatible \/ MAppendIncompatible \/ MAppendMissing
-           \/ MReadBack \/ MReadHeader
+Next == \/ MOpen \/ MHWrite \/ MHRead \/ MHClose
+        \/ MCreate \/ MOverwrite \/ MAppendCompatible \/ MAppendIncompatible \/ MAppendMissing
+        \/ MReadBack \/ MReadHeader
 
 Spec == Init /\ [][Next]_vars
 
